@@ -160,7 +160,7 @@ func (p c16) Run(c *core.Ctx, idx int) {
 	if idx%97 == 0 {
 		p.usesWhenOnContainer(c)
 	}
-	placement := []string{"when-container", "when-leaf", "when-leaf-list", "when-uses", "when-augment", "where-top", "where-nested", "filter", "when-edit", "when-list"}[(idx/len(ts))%10]
+	placement := []string{"when-container", "when-leaf", "when-leaf-list", "when-uses", "when-augment", "where-top", "where-nested", "filter", "when-edit", "when-list", "when-path"}[(idx/len(ts))%11]
 	ops := c16ops
 	if t.name == "boolean" {
 		ops = []string{"=", "!="}
@@ -177,6 +177,8 @@ func (p c16) Run(c *core.Ctx, idx int) {
 				p.filter(c, t, op, lit)
 			case "when-list":
 				p.whenList(c, t, op, lit)
+			case "when-path":
+				p.whenPath(c, t, op, lit)
 			default:
 				p.when(c, t, op, lit, placement)
 			}
@@ -392,6 +394,153 @@ func (p c16) whenList(c *core.Ctx, t c16type, op, lit string) {
 	}
 	if top.Q != "keep" {
 		c.Violate("when/hides-too-much/"+sig, "the sibling leaf disappeared\n%s", wit)
+	}
+	// the same list read with a where every entry satisfies: the intersection is still what the when leaves
+	c.Eval()
+	var got2 string
+	if c.Guard("read list with when and where", func() {
+		n, e := nodeutil.ReadJSON(doc)
+		if e != nil {
+			err = e
+			return
+		}
+		var sel *node.Selection
+		sel, err = node.NewBrowser(mod, n).Root().Find("g?where=" + url.QueryEscape("p='x'"))
+		if err == nil && sel != nil {
+			got2, err = nodeutil.WriteJSON(sel)
+		}
+	}) {
+		return
+	}
+	var lst struct {
+		G []struct {
+			K int `json:"k"`
+		} `json:"g"`
+	}
+	if err != nil || jsonUnmarshal(got2, &lst) != nil {
+		c.Violate("when/error/"+sig+"/with-where", "read with where=p='x' failed: %v\n%s\noutput: %s", err, wit, got2)
+		return
+	}
+	var keys2 []string
+	for _, e := range lst.G {
+		keys2 = append(keys2, fmt.Sprint(e.K))
+	}
+	if strings.Join(keys2, ",") != strings.Join(want, ",") {
+		c.Violate("when/where-overrides-when/"+sig, "with where=p='x' (true for every entry) the entries read are %v, the when leaves %v\n%s\noutput: %s", keys2, want, wit, got2)
+	}
+}
+
+// whenPath: the operand is reached through a path: container/leaf for every type, and list/key='literal' (true when some entry has
+// that key) for strings, with literals holding the characters that mean something in a URL path.
+func (p c16) whenPath(c *core.Ctx, t c16type, op, lit string) {
+	load := func(body string) *meta.Module {
+		m, err := parser.LoadModuleFromString(nil, "module m { namespace \"urn:m\"; prefix m; revision 2020-01-01; "+body+" }")
+		if err != nil {
+			c.Violate("when/load-error/when-path", "%v\n%s", err, body)
+			return nil
+		}
+		return m
+	}
+	read := func(m *meta.Module, doc string) (map[string]interface{}, string, error) {
+		n, err := nodeutil.ReadJSON(doc)
+		if err != nil {
+			return nil, "", err
+		}
+		js, err := nodeutil.WriteJSON(node.NewBrowser(m, n).Root())
+		if err != nil {
+			return nil, js, err
+		}
+		var top map[string]interface{}
+		if e := jsonUnmarshal(js, &top); e != nil {
+			return nil, js, e
+		}
+		return top, js, nil
+	}
+	// container/leaf
+	expr := "c/o" + op + t.xlit(lit)
+	body := fmt.Sprintf("container c { leaf o { %s } } leaf g { when \"%s\"; type string; } leaf q { type string; }", t.yang, expr)
+	var mod *meta.Module
+	if c.Guard("load", func() { mod = load(body) }) || mod == nil {
+		return
+	}
+	operands := []*string{nil}
+	for i := range t.values {
+		v := t.values[i]
+		operands = append(operands, &v)
+	}
+	for _, o := range operands {
+		c.Eval()
+		want := t.truth(o, op, lit)
+		doc := "{\"g\":\"x\",\"q\":\"keep\"}"
+		if o != nil {
+			doc = fmt.Sprintf("{\"c\":{\"o\":%s},\"g\":\"x\",\"q\":\"keep\"}", jsonScalar(t, *o))
+		}
+		c.Shape("when-path/container/%s/%s/%v", t.name, op, want)
+		var top map[string]interface{}
+		var js string
+		var err error
+		if c.Guard("read "+expr, func() { top, js, err = read(mod, doc) }) {
+			continue
+		}
+		sig := fmt.Sprintf("when-path/container/%s/%s", t.name, opName(op))
+		wit := fmt.Sprintf("schema: %s\ndata: %s\noutput: %s", body, doc, js)
+		if err != nil {
+			c.Violate("when/error/"+sig, "read failed: %v\n%s", err, wit)
+			continue
+		}
+		if _, vis := top["g"]; vis != want {
+			cls := "false-but-visible"
+			if want {
+				cls = "true-but-hidden"
+			}
+			c.Violate("when/"+cls+"/"+sig, "%q is %v for this data\n%s", expr, want, wit)
+		}
+		if top["q"] != "keep" {
+			c.Violate("when/hides-too-much/"+sig, "the sibling leaf disappeared\n%s", wit)
+		}
+	}
+	if t.name != "string" || op != "=" {
+		return
+	}
+	// list/key = 'literal'
+	keys := []string{"plain", "a/b", "ge-0/0/1", "x,y", "1+1", "100%", "q?x", "a b", "k=v", "#h", "a&b"}
+	for _, l := range keys {
+		expr := "l/k='" + l + "'"
+		body := fmt.Sprintf("list l { key k; leaf k { type string; } leaf v { type int32; } } leaf g { when \"%s\"; type string; } leaf q { type string; }", expr)
+		var mod *meta.Module
+		if c.Guard("load", func() { mod = load(body) }) || mod == nil {
+			return
+		}
+		for _, present := range []bool{true, false} {
+			c.Eval()
+			var es []string
+			for i, k := range keys {
+				if k == l && !present {
+					continue
+				}
+				es = append(es, fmt.Sprintf("{\"k\":%q,\"v\":%d}", k, i))
+			}
+			doc := "{\"l\":[" + strings.Join(es, ",") + "],\"g\":\"x\",\"q\":\"keep\"}"
+			c.Shape("when-path/list-key/%q/%v", l, present)
+			var top map[string]interface{}
+			var js string
+			var err error
+			if c.Guard("read "+expr, func() { top, js, err = read(mod, doc) }) {
+				continue
+			}
+			wit := fmt.Sprintf("schema: %s\ndata: %s\noutput: %s", body, doc, js)
+			if err != nil {
+				c.Violate("when/error/when-path/list-key", "read failed: %v\n%s", err, wit)
+				continue
+			}
+			if _, vis := top["g"]; vis != present {
+				cls := "false-but-visible"
+				if present {
+					cls = "true-but-hidden"
+				}
+				c.Violate("when/"+cls+"/when-path/list-key", "%q is %v for this data\n%s", expr, present, wit)
+			}
+		}
 	}
 }
 
